@@ -1341,3 +1341,77 @@ Lemma lifecycle_constants_ok :
   (forall n, sname n = (Consts.svc_name_prefix ++ dec n)%string) /\
   Consts.antctl_cmds_refresh_first = true.
 Proof. split; [reflexivity|]. split; [intros n; reflexivity|reflexivity]. Qed.
+
+(* ================================================================ what a reported success leaves in the RECORD, unconditionally *)
+Lemma mgr_stop_codes F s e c s' e' : mgr_stop F s e = (c, s', e') -> c = C_OK \/ c = C_PID_NOT_SET \/ c = C_CONTROL.
+Proof.
+  unfold mgr_stop. intros H. destruct (st s); try (inversion H; auto).
+  destruct (pid s); [|inversion H; auto].
+  destruct (call_pid F (number s) e) as [r e1]. destruct r.
+  - destruct (call_stop F (number s) e1) as [ok e2]. destruct ok; inversion H; auto.
+  - inversion H; auto.
+  - inversion H; auto.
+Qed.
+
+Lemma mgr_stop_ok_record F s e s' e' : svc_ok e s -> mgr_stop F s e = (C_OK, s', e') -> pid s' = None /\ st s' <> Running.
+Proof.
+  intros [A _] H. apply mgr_stop_spec in H. destruct H as (_ & _ & [(-> & _ & NR)|(_ & -> & _)]).
+  - specialize (NR eq_refl). auto.
+  - split; [reflexivity|discriminate].
+Qed.
+
+Lemma mgr_remove_ok_record F keep s e s' e' : svc_ok e s -> mgr_remove F keep s e = (C_OK, s', e') ->
+  st s' = Removed /\ pid s' = None /\ inste e' (number s') = false.
+Proof.
+  intros [A _] H. apply mgr_remove_spec in H.
+  destruct H as (_ & _ & [(_ & X & _)|[(X & _)|(_ & -> & NR & IN)]]); try discriminate X.
+  splits; [reflexivity|cbn; auto|exact IN].
+Qed.
+
+Lemma mgr_upgrade_nostart_record F force tv binok dyn s e c s' e' : svc_ok e s ->
+  mgr_upgrade F force false tv binok dyn s e = (c, s', e') -> c = C_UPGRADED \/ c = C_FORCED ->
+  pid s' = None /\ st s' <> Running.
+Proof.
+  intros O H Hc. unfold mgr_upgrade in H.
+  destruct (negb force && (tv <=? version s)); [inversion H; subst; destruct Hc; discriminate|].
+  destruct (mgr_stop F s e) as [[c1 s1] e1] eqn:Hs.
+  pose proof (mgr_stop_codes _ _ _ _ _ _ Hs) as Codes.
+  destruct (c1 =? C_OK) eqn:C1; cbn [negb] in H.
+  2:{ inversion H; subst. destruct Codes as [E1|[E1|E1]]; rewrite E1 in *; [discriminate C1| |]; destruct Hc; discriminate. }
+  apply N.eqb_eq in C1. subst c1. destruct (mgr_stop_ok_record _ _ _ _ _ O Hs) as (P1 & R1).
+  destruct (binok && has_dir (number s) e1); cbn [negb] in H; [|inversion H; subst; destruct Hc; discriminate].
+  destruct (call_uninstall F (number s) e1) as [u e2]. destruct u; try (inversion H; subst; destruct Hc; discriminate).
+  destruct (call_install F (number s) (node_port s1) e2) as [ok e3]. destruct ok; cbn [negb] in H;
+    [|inversion H; subst; destruct Hc; discriminate].
+  destruct force; inversion H; subst; cbn; auto.
+Qed.
+
+Lemma on_service_at w i f w' c s' : on_service w i f = (w', c) -> c <> C_NO_SUCH_INDEX -> nth_error (reg w') i = Some s' ->
+  exists s, In s (reg w) /\ f s (wenv w) = (c, s', wenv w').
+Proof.
+  intros H NC Hn. apply on_service_shape in H. destruct H as [(X & _)|(l1 & s & l2 & s2 & Hr & Hi & Hf & Hr')]; [contradiction|].
+  rewrite Hr' in Hn. rewrite <- Hi in Hn. rewrite nth_error_app_mid in Hn. inversion Hn; subst s2.
+  exists s. split; [rewrite Hr; apply in_or_app; right; left; reflexivity|exact Hf].
+Qed.
+
+Lemma ok_clears_record_lemma F ops i w' c s' o :
+  step F (run F ops) o = (w', c) -> nth_error (reg w') i = Some s' ->
+  match o with
+  | OStop j => j = i /\ c = C_OK
+  | ORemove j _ => j = i /\ c = C_OK
+  | OUpgrade j _ start _ _ _ => j = i /\ start = false /\ (c = C_UPGRADED \/ c = C_FORCED)
+  | _ => False
+  end ->
+  pid s' = None /\ st s' <> Running /\
+  (match o with ORemove _ _ => st s' = Removed /\ is_installed (eos (wenv w')) (number s') = false | _ => True end).
+Proof.
+  intros H Hn Ho. destruct (run_inv F ops) as [_ FA]. rewrite Forall_forall in FA.
+  destruct o; try contradiction; cbn [step] in H.
+  - destruct Ho as (-> & ->). destruct (on_service_at _ _ _ _ _ s' H) as (s & Hs & Hf); [discriminate|exact Hn|].
+    destruct (mgr_stop_ok_record _ _ _ _ _ (FA s Hs) Hf). auto.
+  - destruct Ho as (-> & ->). destruct (on_service_at _ _ _ _ _ s' H) as (s & Hs & Hf); [discriminate|exact Hn|].
+    destruct (mgr_remove_ok_record _ _ _ _ _ _ (FA s Hs) Hf) as (A & B & C). splits; auto. rewrite A. discriminate.
+  - destruct Ho as (-> & -> & Hc). destruct (on_service_at _ _ _ _ _ s' H) as (s & Hs & Hf);
+      [destruct Hc as [->| ->]; discriminate|exact Hn|].
+    destruct (mgr_upgrade_nostart_record _ _ _ _ _ _ _ _ _ _ (FA s Hs) Hf Hc). auto.
+Qed.
